@@ -30,7 +30,7 @@ from .. import rig as R, ref, gen, dump, hist, env
 from ..orch import h
 
 ID = "C16"
-TECHNIQUE = 'runtime monitoring - validator contracts (reference predicate per validator at its documented bounds), pipelines through the relay with call taps (every configured validator evaluated; fail-closed), dynamic list content vs store, refresh race driven by sys.monitoring yield injection'
+TECHNIQUE = 'runtime monitoring - validator contracts (reference predicate per validator at its documented bounds), pipelines through the relay with call taps (every configured validator evaluated; fail-closed), dynamic list content vs store, refresh race driven by sys.monitoring yield injection; end-to-end shard: a real server with 1-3 worker processes on a database that already holds the list events - the first EVENT served after a start, after an orderly restart and after a worker respawn, and one decision per worker process (placement observed in /proc)'
 LEVEL = "exploration"
 RULE = (
     "cases: (a) per validator the boundary grid - content length cap-1/cap/cap+1, age oldest_event-1/=/+1 and future skew "
@@ -43,17 +43,30 @@ RULE = (
     "call overlapped run_once). Distinct = distinct (part, validator/pipeline, boundary label)."
 )
 ASSUMPTIONS = [
+    "end-to-end shards: a real gunicorn/uvicorn server process tree started from the tree under test (vf/e2e_launch.py: the repository's run_with_gunicorn / run_with_uvicorn; the SQL schema is made with the repository's metadata.create_all because its alembic env.py does not run with the installed SQLAlchemy; the notifier's fixed TCP port 6000 is replaced by a free port), spoken to over loopback TCP with the websockets client; real time, real sleeps",
     "clock injected by rebinding validators.time; validator wrappers are installed on the defining modules before the storage resolves them",
     "when the allow queries return nothing the list may stay empty (not enforced) - documented behaviour - so that case is not judged",
     "verification.is_nip05_verified needs nostr_bot (absent) and is not exercised",
 ]
 MIN_NONTRIVIAL = {"quick": 150, "thorough": 600}
-REQUIRED_COUNTERS = ["contract.evaluations", "pipeline.events", "pipeline.respelled_keys", "lists.builds", "lists.started_builders", "race.refreshes", "race.checks_during_refresh"]
+REQUIRED_COUNTERS = ["e2e.e2e_first_contacts", "e2e.e2e_allow_list_decisions", "contract.evaluations", "pipeline.events", "pipeline.respelled_keys", "lists.builds", "lists.started_builders", "race.refreshes", "race.checks_during_refresh"]
 SHARD_TIMEOUT = {"quick": 600, "thorough": 3200}
 NOW = 1700000000
 
 
 def plan(tier, seed):
+    return _plan(tier, seed) + e2e_plan(tier, seed)
+
+
+def e2e_plan(tier, seed):
+    """shards on a REAL server process tree (vf/e2e.py)"""
+    out = [{"mode": "e2e", "e2e": "c16", "backend": "sql", "workers": 2, "seed": seed}, {"mode": "e2e", "e2e": "c16", "backend": "lmdb", "workers": 2, "seed": seed}]
+    if tier == "thorough":
+        out += [{"mode": "e2e", "e2e": "c16", "backend": b, "workers": w, "seed": seed + w} for b in ("sql", "lmdb") for w in (1, 3)]
+    return out
+
+
+def _plan(tier, seed):
     out = [{"mode": "contracts", "case_seed": seed}]
     pipes = 10 if tier == "quick" else 40
     for backend in ("sql", "lmdb"):
@@ -586,6 +599,10 @@ async def run_race(backend, refreshes, counters, seed):
 
 
 def run_shard(spec):
+    if spec.get("mode") == "e2e":
+        from .. import e2e_cases
+
+        return e2e_cases.run_e2e_shard(ID, spec)
     counters = {}
     mode = spec["mode"]
     if mode == "contracts":
@@ -608,6 +625,10 @@ def run_shard(spec):
 
 
 def replay(rp, spec):
+    if rp.get("mode") == "e2e":
+        from .. import e2e_cases
+
+        return e2e_cases.run_e2e_shard(ID, rp)
     counters = {}
     mode = rp["mode"]
     if mode == "contracts":
